@@ -3,7 +3,7 @@
 from .. import rules_out as RO
 from .. import rules_text as RT
 
-LEVEL = "proof"
+LEVEL = "other"
 
 EXPLANATION = (
     "Regex-as-data reasoning plus guard analysis of parse_cvss_from_text: the candidate regex (re._parser AST) has no "
